@@ -33,7 +33,8 @@ Record reply := mkReply {
 Inductive mitem := Sync (r : reply) | Later.
 
 Inductive op :=
-| Submit (cb : list op)              (* SendRDMRequest(new request, callback running cb) *)
+| Submit (null : bool) (cb : list op) (* SendRDMRequest(new request, callback running cb); null: the
+                                        caller passes a NULL on_complete (cb is then ignored) *)
 | Disc (full null : bool) (cb : list op)  (* RunFullDiscovery / RunIncrementalDiscovery; null: the
                                            caller passes a NULL callback (cb is then ignored) *)
 | Pause
@@ -93,71 +94,74 @@ Record st := mkSt {
   h_open : N;
   g_rj : N;
   h_destroying : bool;
-  s_nulls : list N
+  s_nulls : list N;
+  s_qnulls : list N
 }.
 
 Definition set_s_max (v : N) (s : st) : st :=
-  mkSt v (s_discov s) (s_queue s) (s_pending s) (s_active s) (s_resp s) (s_nframes s) (s_pdisc s) (s_rdisc s) (m_out s) (m_dout s) (m_script s) (m_dscript s) (m_nrun s) (h_next s) (h_ndid s) (h_paused s) (g_parts s) (g_conc s) (g_psends s) (g_fatal s) (g_accepted s) (g_done s) (g_runs s) (g_ddone s) (g_trace s) (g_from s) (h_open s) (g_rj s) (h_destroying s) (s_nulls s).
+  mkSt v (s_discov s) (s_queue s) (s_pending s) (s_active s) (s_resp s) (s_nframes s) (s_pdisc s) (s_rdisc s) (m_out s) (m_dout s) (m_script s) (m_dscript s) (m_nrun s) (h_next s) (h_ndid s) (h_paused s) (g_parts s) (g_conc s) (g_psends s) (g_fatal s) (g_accepted s) (g_done s) (g_runs s) (g_ddone s) (g_trace s) (g_from s) (h_open s) (g_rj s) (h_destroying s) (s_nulls s) (s_qnulls s).
 Definition set_s_discov (v : bool) (s : st) : st :=
-  mkSt (s_max s) v (s_queue s) (s_pending s) (s_active s) (s_resp s) (s_nframes s) (s_pdisc s) (s_rdisc s) (m_out s) (m_dout s) (m_script s) (m_dscript s) (m_nrun s) (h_next s) (h_ndid s) (h_paused s) (g_parts s) (g_conc s) (g_psends s) (g_fatal s) (g_accepted s) (g_done s) (g_runs s) (g_ddone s) (g_trace s) (g_from s) (h_open s) (g_rj s) (h_destroying s) (s_nulls s).
+  mkSt (s_max s) v (s_queue s) (s_pending s) (s_active s) (s_resp s) (s_nframes s) (s_pdisc s) (s_rdisc s) (m_out s) (m_dout s) (m_script s) (m_dscript s) (m_nrun s) (h_next s) (h_ndid s) (h_paused s) (g_parts s) (g_conc s) (g_psends s) (g_fatal s) (g_accepted s) (g_done s) (g_runs s) (g_ddone s) (g_trace s) (g_from s) (h_open s) (g_rj s) (h_destroying s) (s_nulls s) (s_qnulls s).
 Definition set_s_queue (v : list (N * list op)) (s : st) : st :=
-  mkSt (s_max s) (s_discov s) v (s_pending s) (s_active s) (s_resp s) (s_nframes s) (s_pdisc s) (s_rdisc s) (m_out s) (m_dout s) (m_script s) (m_dscript s) (m_nrun s) (h_next s) (h_ndid s) (h_paused s) (g_parts s) (g_conc s) (g_psends s) (g_fatal s) (g_accepted s) (g_done s) (g_runs s) (g_ddone s) (g_trace s) (g_from s) (h_open s) (g_rj s) (h_destroying s) (s_nulls s).
+  mkSt (s_max s) (s_discov s) v (s_pending s) (s_active s) (s_resp s) (s_nframes s) (s_pdisc s) (s_rdisc s) (m_out s) (m_dout s) (m_script s) (m_dscript s) (m_nrun s) (h_next s) (h_ndid s) (h_paused s) (g_parts s) (g_conc s) (g_psends s) (g_fatal s) (g_accepted s) (g_done s) (g_runs s) (g_ddone s) (g_trace s) (g_from s) (h_open s) (g_rj s) (h_destroying s) (s_nulls s) (s_qnulls s).
 Definition set_s_pending (v : bool) (s : st) : st :=
-  mkSt (s_max s) (s_discov s) (s_queue s) v (s_active s) (s_resp s) (s_nframes s) (s_pdisc s) (s_rdisc s) (m_out s) (m_dout s) (m_script s) (m_dscript s) (m_nrun s) (h_next s) (h_ndid s) (h_paused s) (g_parts s) (g_conc s) (g_psends s) (g_fatal s) (g_accepted s) (g_done s) (g_runs s) (g_ddone s) (g_trace s) (g_from s) (h_open s) (g_rj s) (h_destroying s) (s_nulls s).
+  mkSt (s_max s) (s_discov s) (s_queue s) v (s_active s) (s_resp s) (s_nframes s) (s_pdisc s) (s_rdisc s) (m_out s) (m_dout s) (m_script s) (m_dscript s) (m_nrun s) (h_next s) (h_ndid s) (h_paused s) (g_parts s) (g_conc s) (g_psends s) (g_fatal s) (g_accepted s) (g_done s) (g_runs s) (g_ddone s) (g_trace s) (g_from s) (h_open s) (g_rj s) (h_destroying s) (s_nulls s) (s_qnulls s).
 Definition set_s_active (v : bool) (s : st) : st :=
-  mkSt (s_max s) (s_discov s) (s_queue s) (s_pending s) v (s_resp s) (s_nframes s) (s_pdisc s) (s_rdisc s) (m_out s) (m_dout s) (m_script s) (m_dscript s) (m_nrun s) (h_next s) (h_ndid s) (h_paused s) (g_parts s) (g_conc s) (g_psends s) (g_fatal s) (g_accepted s) (g_done s) (g_runs s) (g_ddone s) (g_trace s) (g_from s) (h_open s) (g_rj s) (h_destroying s) (s_nulls s).
+  mkSt (s_max s) (s_discov s) (s_queue s) (s_pending s) v (s_resp s) (s_nframes s) (s_pdisc s) (s_rdisc s) (m_out s) (m_dout s) (m_script s) (m_dscript s) (m_nrun s) (h_next s) (h_ndid s) (h_paused s) (g_parts s) (g_conc s) (g_psends s) (g_fatal s) (g_accepted s) (g_done s) (g_runs s) (g_ddone s) (g_trace s) (g_from s) (h_open s) (g_rj s) (h_destroying s) (s_nulls s) (s_qnulls s).
 Definition set_s_resp (v : option resp) (s : st) : st :=
-  mkSt (s_max s) (s_discov s) (s_queue s) (s_pending s) (s_active s) v (s_nframes s) (s_pdisc s) (s_rdisc s) (m_out s) (m_dout s) (m_script s) (m_dscript s) (m_nrun s) (h_next s) (h_ndid s) (h_paused s) (g_parts s) (g_conc s) (g_psends s) (g_fatal s) (g_accepted s) (g_done s) (g_runs s) (g_ddone s) (g_trace s) (g_from s) (h_open s) (g_rj s) (h_destroying s) (s_nulls s).
+  mkSt (s_max s) (s_discov s) (s_queue s) (s_pending s) (s_active s) v (s_nframes s) (s_pdisc s) (s_rdisc s) (m_out s) (m_dout s) (m_script s) (m_dscript s) (m_nrun s) (h_next s) (h_ndid s) (h_paused s) (g_parts s) (g_conc s) (g_psends s) (g_fatal s) (g_accepted s) (g_done s) (g_runs s) (g_ddone s) (g_trace s) (g_from s) (h_open s) (g_rj s) (h_destroying s) (s_nulls s) (s_qnulls s).
 Definition set_s_nframes (v : N) (s : st) : st :=
-  mkSt (s_max s) (s_discov s) (s_queue s) (s_pending s) (s_active s) (s_resp s) v (s_pdisc s) (s_rdisc s) (m_out s) (m_dout s) (m_script s) (m_dscript s) (m_nrun s) (h_next s) (h_ndid s) (h_paused s) (g_parts s) (g_conc s) (g_psends s) (g_fatal s) (g_accepted s) (g_done s) (g_runs s) (g_ddone s) (g_trace s) (g_from s) (h_open s) (g_rj s) (h_destroying s) (s_nulls s).
+  mkSt (s_max s) (s_discov s) (s_queue s) (s_pending s) (s_active s) (s_resp s) v (s_pdisc s) (s_rdisc s) (m_out s) (m_dout s) (m_script s) (m_dscript s) (m_nrun s) (h_next s) (h_ndid s) (h_paused s) (g_parts s) (g_conc s) (g_psends s) (g_fatal s) (g_accepted s) (g_done s) (g_runs s) (g_ddone s) (g_trace s) (g_from s) (h_open s) (g_rj s) (h_destroying s) (s_nulls s) (s_qnulls s).
 Definition set_s_pdisc (v : list (bool * N * list op)) (s : st) : st :=
-  mkSt (s_max s) (s_discov s) (s_queue s) (s_pending s) (s_active s) (s_resp s) (s_nframes s) v (s_rdisc s) (m_out s) (m_dout s) (m_script s) (m_dscript s) (m_nrun s) (h_next s) (h_ndid s) (h_paused s) (g_parts s) (g_conc s) (g_psends s) (g_fatal s) (g_accepted s) (g_done s) (g_runs s) (g_ddone s) (g_trace s) (g_from s) (h_open s) (g_rj s) (h_destroying s) (s_nulls s).
+  mkSt (s_max s) (s_discov s) (s_queue s) (s_pending s) (s_active s) (s_resp s) (s_nframes s) v (s_rdisc s) (m_out s) (m_dout s) (m_script s) (m_dscript s) (m_nrun s) (h_next s) (h_ndid s) (h_paused s) (g_parts s) (g_conc s) (g_psends s) (g_fatal s) (g_accepted s) (g_done s) (g_runs s) (g_ddone s) (g_trace s) (g_from s) (h_open s) (g_rj s) (h_destroying s) (s_nulls s) (s_qnulls s).
 Definition set_s_rdisc (v : list (N * option (list op))) (s : st) : st :=
-  mkSt (s_max s) (s_discov s) (s_queue s) (s_pending s) (s_active s) (s_resp s) (s_nframes s) (s_pdisc s) v (m_out s) (m_dout s) (m_script s) (m_dscript s) (m_nrun s) (h_next s) (h_ndid s) (h_paused s) (g_parts s) (g_conc s) (g_psends s) (g_fatal s) (g_accepted s) (g_done s) (g_runs s) (g_ddone s) (g_trace s) (g_from s) (h_open s) (g_rj s) (h_destroying s) (s_nulls s).
+  mkSt (s_max s) (s_discov s) (s_queue s) (s_pending s) (s_active s) (s_resp s) (s_nframes s) (s_pdisc s) v (m_out s) (m_dout s) (m_script s) (m_dscript s) (m_nrun s) (h_next s) (h_ndid s) (h_paused s) (g_parts s) (g_conc s) (g_psends s) (g_fatal s) (g_accepted s) (g_done s) (g_runs s) (g_ddone s) (g_trace s) (g_from s) (h_open s) (g_rj s) (h_destroying s) (s_nulls s) (s_qnulls s).
 Definition set_m_out (v : list N) (s : st) : st :=
-  mkSt (s_max s) (s_discov s) (s_queue s) (s_pending s) (s_active s) (s_resp s) (s_nframes s) (s_pdisc s) (s_rdisc s) v (m_dout s) (m_script s) (m_dscript s) (m_nrun s) (h_next s) (h_ndid s) (h_paused s) (g_parts s) (g_conc s) (g_psends s) (g_fatal s) (g_accepted s) (g_done s) (g_runs s) (g_ddone s) (g_trace s) (g_from s) (h_open s) (g_rj s) (h_destroying s) (s_nulls s).
+  mkSt (s_max s) (s_discov s) (s_queue s) (s_pending s) (s_active s) (s_resp s) (s_nframes s) (s_pdisc s) (s_rdisc s) v (m_dout s) (m_script s) (m_dscript s) (m_nrun s) (h_next s) (h_ndid s) (h_paused s) (g_parts s) (g_conc s) (g_psends s) (g_fatal s) (g_accepted s) (g_done s) (g_runs s) (g_ddone s) (g_trace s) (g_from s) (h_open s) (g_rj s) (h_destroying s) (s_nulls s) (s_qnulls s).
 Definition set_m_dout (v : list N) (s : st) : st :=
-  mkSt (s_max s) (s_discov s) (s_queue s) (s_pending s) (s_active s) (s_resp s) (s_nframes s) (s_pdisc s) (s_rdisc s) (m_out s) v (m_script s) (m_dscript s) (m_nrun s) (h_next s) (h_ndid s) (h_paused s) (g_parts s) (g_conc s) (g_psends s) (g_fatal s) (g_accepted s) (g_done s) (g_runs s) (g_ddone s) (g_trace s) (g_from s) (h_open s) (g_rj s) (h_destroying s) (s_nulls s).
+  mkSt (s_max s) (s_discov s) (s_queue s) (s_pending s) (s_active s) (s_resp s) (s_nframes s) (s_pdisc s) (s_rdisc s) (m_out s) v (m_script s) (m_dscript s) (m_nrun s) (h_next s) (h_ndid s) (h_paused s) (g_parts s) (g_conc s) (g_psends s) (g_fatal s) (g_accepted s) (g_done s) (g_runs s) (g_ddone s) (g_trace s) (g_from s) (h_open s) (g_rj s) (h_destroying s) (s_nulls s) (s_qnulls s).
 Definition set_m_script (v : list mitem) (s : st) : st :=
-  mkSt (s_max s) (s_discov s) (s_queue s) (s_pending s) (s_active s) (s_resp s) (s_nframes s) (s_pdisc s) (s_rdisc s) (m_out s) (m_dout s) v (m_dscript s) (m_nrun s) (h_next s) (h_ndid s) (h_paused s) (g_parts s) (g_conc s) (g_psends s) (g_fatal s) (g_accepted s) (g_done s) (g_runs s) (g_ddone s) (g_trace s) (g_from s) (h_open s) (g_rj s) (h_destroying s) (s_nulls s).
+  mkSt (s_max s) (s_discov s) (s_queue s) (s_pending s) (s_active s) (s_resp s) (s_nframes s) (s_pdisc s) (s_rdisc s) (m_out s) (m_dout s) v (m_dscript s) (m_nrun s) (h_next s) (h_ndid s) (h_paused s) (g_parts s) (g_conc s) (g_psends s) (g_fatal s) (g_accepted s) (g_done s) (g_runs s) (g_ddone s) (g_trace s) (g_from s) (h_open s) (g_rj s) (h_destroying s) (s_nulls s) (s_qnulls s).
 Definition set_m_dscript (v : list bool) (s : st) : st :=
-  mkSt (s_max s) (s_discov s) (s_queue s) (s_pending s) (s_active s) (s_resp s) (s_nframes s) (s_pdisc s) (s_rdisc s) (m_out s) (m_dout s) (m_script s) v (m_nrun s) (h_next s) (h_ndid s) (h_paused s) (g_parts s) (g_conc s) (g_psends s) (g_fatal s) (g_accepted s) (g_done s) (g_runs s) (g_ddone s) (g_trace s) (g_from s) (h_open s) (g_rj s) (h_destroying s) (s_nulls s).
+  mkSt (s_max s) (s_discov s) (s_queue s) (s_pending s) (s_active s) (s_resp s) (s_nframes s) (s_pdisc s) (s_rdisc s) (m_out s) (m_dout s) (m_script s) v (m_nrun s) (h_next s) (h_ndid s) (h_paused s) (g_parts s) (g_conc s) (g_psends s) (g_fatal s) (g_accepted s) (g_done s) (g_runs s) (g_ddone s) (g_trace s) (g_from s) (h_open s) (g_rj s) (h_destroying s) (s_nulls s) (s_qnulls s).
 Definition set_m_nrun (v : N) (s : st) : st :=
-  mkSt (s_max s) (s_discov s) (s_queue s) (s_pending s) (s_active s) (s_resp s) (s_nframes s) (s_pdisc s) (s_rdisc s) (m_out s) (m_dout s) (m_script s) (m_dscript s) v (h_next s) (h_ndid s) (h_paused s) (g_parts s) (g_conc s) (g_psends s) (g_fatal s) (g_accepted s) (g_done s) (g_runs s) (g_ddone s) (g_trace s) (g_from s) (h_open s) (g_rj s) (h_destroying s) (s_nulls s).
+  mkSt (s_max s) (s_discov s) (s_queue s) (s_pending s) (s_active s) (s_resp s) (s_nframes s) (s_pdisc s) (s_rdisc s) (m_out s) (m_dout s) (m_script s) (m_dscript s) v (h_next s) (h_ndid s) (h_paused s) (g_parts s) (g_conc s) (g_psends s) (g_fatal s) (g_accepted s) (g_done s) (g_runs s) (g_ddone s) (g_trace s) (g_from s) (h_open s) (g_rj s) (h_destroying s) (s_nulls s) (s_qnulls s).
 Definition set_h_next (v : N) (s : st) : st :=
-  mkSt (s_max s) (s_discov s) (s_queue s) (s_pending s) (s_active s) (s_resp s) (s_nframes s) (s_pdisc s) (s_rdisc s) (m_out s) (m_dout s) (m_script s) (m_dscript s) (m_nrun s) v (h_ndid s) (h_paused s) (g_parts s) (g_conc s) (g_psends s) (g_fatal s) (g_accepted s) (g_done s) (g_runs s) (g_ddone s) (g_trace s) (g_from s) (h_open s) (g_rj s) (h_destroying s) (s_nulls s).
+  mkSt (s_max s) (s_discov s) (s_queue s) (s_pending s) (s_active s) (s_resp s) (s_nframes s) (s_pdisc s) (s_rdisc s) (m_out s) (m_dout s) (m_script s) (m_dscript s) (m_nrun s) v (h_ndid s) (h_paused s) (g_parts s) (g_conc s) (g_psends s) (g_fatal s) (g_accepted s) (g_done s) (g_runs s) (g_ddone s) (g_trace s) (g_from s) (h_open s) (g_rj s) (h_destroying s) (s_nulls s) (s_qnulls s).
 Definition set_h_ndid (v : N) (s : st) : st :=
-  mkSt (s_max s) (s_discov s) (s_queue s) (s_pending s) (s_active s) (s_resp s) (s_nframes s) (s_pdisc s) (s_rdisc s) (m_out s) (m_dout s) (m_script s) (m_dscript s) (m_nrun s) (h_next s) v (h_paused s) (g_parts s) (g_conc s) (g_psends s) (g_fatal s) (g_accepted s) (g_done s) (g_runs s) (g_ddone s) (g_trace s) (g_from s) (h_open s) (g_rj s) (h_destroying s) (s_nulls s).
+  mkSt (s_max s) (s_discov s) (s_queue s) (s_pending s) (s_active s) (s_resp s) (s_nframes s) (s_pdisc s) (s_rdisc s) (m_out s) (m_dout s) (m_script s) (m_dscript s) (m_nrun s) (h_next s) v (h_paused s) (g_parts s) (g_conc s) (g_psends s) (g_fatal s) (g_accepted s) (g_done s) (g_runs s) (g_ddone s) (g_trace s) (g_from s) (h_open s) (g_rj s) (h_destroying s) (s_nulls s) (s_qnulls s).
 Definition set_h_paused (v : bool) (s : st) : st :=
-  mkSt (s_max s) (s_discov s) (s_queue s) (s_pending s) (s_active s) (s_resp s) (s_nframes s) (s_pdisc s) (s_rdisc s) (m_out s) (m_dout s) (m_script s) (m_dscript s) (m_nrun s) (h_next s) (h_ndid s) v (g_parts s) (g_conc s) (g_psends s) (g_fatal s) (g_accepted s) (g_done s) (g_runs s) (g_ddone s) (g_trace s) (g_from s) (h_open s) (g_rj s) (h_destroying s) (s_nulls s).
+  mkSt (s_max s) (s_discov s) (s_queue s) (s_pending s) (s_active s) (s_resp s) (s_nframes s) (s_pdisc s) (s_rdisc s) (m_out s) (m_dout s) (m_script s) (m_dscript s) (m_nrun s) (h_next s) (h_ndid s) v (g_parts s) (g_conc s) (g_psends s) (g_fatal s) (g_accepted s) (g_done s) (g_runs s) (g_ddone s) (g_trace s) (g_from s) (h_open s) (g_rj s) (h_destroying s) (s_nulls s) (s_qnulls s).
 Definition set_g_parts (v : list resp) (s : st) : st :=
-  mkSt (s_max s) (s_discov s) (s_queue s) (s_pending s) (s_active s) (s_resp s) (s_nframes s) (s_pdisc s) (s_rdisc s) (m_out s) (m_dout s) (m_script s) (m_dscript s) (m_nrun s) (h_next s) (h_ndid s) (h_paused s) v (g_conc s) (g_psends s) (g_fatal s) (g_accepted s) (g_done s) (g_runs s) (g_ddone s) (g_trace s) (g_from s) (h_open s) (g_rj s) (h_destroying s) (s_nulls s).
+  mkSt (s_max s) (s_discov s) (s_queue s) (s_pending s) (s_active s) (s_resp s) (s_nframes s) (s_pdisc s) (s_rdisc s) (m_out s) (m_dout s) (m_script s) (m_dscript s) (m_nrun s) (h_next s) (h_ndid s) (h_paused s) v (g_conc s) (g_psends s) (g_fatal s) (g_accepted s) (g_done s) (g_runs s) (g_ddone s) (g_trace s) (g_from s) (h_open s) (g_rj s) (h_destroying s) (s_nulls s) (s_qnulls s).
 Definition set_g_conc (v : N) (s : st) : st :=
-  mkSt (s_max s) (s_discov s) (s_queue s) (s_pending s) (s_active s) (s_resp s) (s_nframes s) (s_pdisc s) (s_rdisc s) (m_out s) (m_dout s) (m_script s) (m_dscript s) (m_nrun s) (h_next s) (h_ndid s) (h_paused s) (g_parts s) v (g_psends s) (g_fatal s) (g_accepted s) (g_done s) (g_runs s) (g_ddone s) (g_trace s) (g_from s) (h_open s) (g_rj s) (h_destroying s) (s_nulls s).
+  mkSt (s_max s) (s_discov s) (s_queue s) (s_pending s) (s_active s) (s_resp s) (s_nframes s) (s_pdisc s) (s_rdisc s) (m_out s) (m_dout s) (m_script s) (m_dscript s) (m_nrun s) (h_next s) (h_ndid s) (h_paused s) (g_parts s) v (g_psends s) (g_fatal s) (g_accepted s) (g_done s) (g_runs s) (g_ddone s) (g_trace s) (g_from s) (h_open s) (g_rj s) (h_destroying s) (s_nulls s) (s_qnulls s).
 Definition set_g_psends (v : N) (s : st) : st :=
-  mkSt (s_max s) (s_discov s) (s_queue s) (s_pending s) (s_active s) (s_resp s) (s_nframes s) (s_pdisc s) (s_rdisc s) (m_out s) (m_dout s) (m_script s) (m_dscript s) (m_nrun s) (h_next s) (h_ndid s) (h_paused s) (g_parts s) (g_conc s) v (g_fatal s) (g_accepted s) (g_done s) (g_runs s) (g_ddone s) (g_trace s) (g_from s) (h_open s) (g_rj s) (h_destroying s) (s_nulls s).
+  mkSt (s_max s) (s_discov s) (s_queue s) (s_pending s) (s_active s) (s_resp s) (s_nframes s) (s_pdisc s) (s_rdisc s) (m_out s) (m_dout s) (m_script s) (m_dscript s) (m_nrun s) (h_next s) (h_ndid s) (h_paused s) (g_parts s) (g_conc s) v (g_fatal s) (g_accepted s) (g_done s) (g_runs s) (g_ddone s) (g_trace s) (g_from s) (h_open s) (g_rj s) (h_destroying s) (s_nulls s) (s_qnulls s).
 Definition set_g_fatal (v : bool) (s : st) : st :=
-  mkSt (s_max s) (s_discov s) (s_queue s) (s_pending s) (s_active s) (s_resp s) (s_nframes s) (s_pdisc s) (s_rdisc s) (m_out s) (m_dout s) (m_script s) (m_dscript s) (m_nrun s) (h_next s) (h_ndid s) (h_paused s) (g_parts s) (g_conc s) (g_psends s) v (g_accepted s) (g_done s) (g_runs s) (g_ddone s) (g_trace s) (g_from s) (h_open s) (g_rj s) (h_destroying s) (s_nulls s).
+  mkSt (s_max s) (s_discov s) (s_queue s) (s_pending s) (s_active s) (s_resp s) (s_nframes s) (s_pdisc s) (s_rdisc s) (m_out s) (m_dout s) (m_script s) (m_dscript s) (m_nrun s) (h_next s) (h_ndid s) (h_paused s) (g_parts s) (g_conc s) (g_psends s) v (g_accepted s) (g_done s) (g_runs s) (g_ddone s) (g_trace s) (g_from s) (h_open s) (g_rj s) (h_destroying s) (s_nulls s) (s_qnulls s).
 Definition set_g_accepted (v : list N) (s : st) : st :=
-  mkSt (s_max s) (s_discov s) (s_queue s) (s_pending s) (s_active s) (s_resp s) (s_nframes s) (s_pdisc s) (s_rdisc s) (m_out s) (m_dout s) (m_script s) (m_dscript s) (m_nrun s) (h_next s) (h_ndid s) (h_paused s) (g_parts s) (g_conc s) (g_psends s) (g_fatal s) v (g_done s) (g_runs s) (g_ddone s) (g_trace s) (g_from s) (h_open s) (g_rj s) (h_destroying s) (s_nulls s).
+  mkSt (s_max s) (s_discov s) (s_queue s) (s_pending s) (s_active s) (s_resp s) (s_nframes s) (s_pdisc s) (s_rdisc s) (m_out s) (m_dout s) (m_script s) (m_dscript s) (m_nrun s) (h_next s) (h_ndid s) (h_paused s) (g_parts s) (g_conc s) (g_psends s) (g_fatal s) v (g_done s) (g_runs s) (g_ddone s) (g_trace s) (g_from s) (h_open s) (g_rj s) (h_destroying s) (s_nulls s) (s_qnulls s).
 Definition set_g_done (v : list comp) (s : st) : st :=
-  mkSt (s_max s) (s_discov s) (s_queue s) (s_pending s) (s_active s) (s_resp s) (s_nframes s) (s_pdisc s) (s_rdisc s) (m_out s) (m_dout s) (m_script s) (m_dscript s) (m_nrun s) (h_next s) (h_ndid s) (h_paused s) (g_parts s) (g_conc s) (g_psends s) (g_fatal s) (g_accepted s) v (g_runs s) (g_ddone s) (g_trace s) (g_from s) (h_open s) (g_rj s) (h_destroying s) (s_nulls s).
+  mkSt (s_max s) (s_discov s) (s_queue s) (s_pending s) (s_active s) (s_resp s) (s_nframes s) (s_pdisc s) (s_rdisc s) (m_out s) (m_dout s) (m_script s) (m_dscript s) (m_nrun s) (h_next s) (h_ndid s) (h_paused s) (g_parts s) (g_conc s) (g_psends s) (g_fatal s) (g_accepted s) v (g_runs s) (g_ddone s) (g_trace s) (g_from s) (h_open s) (g_rj s) (h_destroying s) (s_nulls s) (s_qnulls s).
 Definition set_g_runs (v : list (N * bool * list (bool * N))) (s : st) : st :=
-  mkSt (s_max s) (s_discov s) (s_queue s) (s_pending s) (s_active s) (s_resp s) (s_nframes s) (s_pdisc s) (s_rdisc s) (m_out s) (m_dout s) (m_script s) (m_dscript s) (m_nrun s) (h_next s) (h_ndid s) (h_paused s) (g_parts s) (g_conc s) (g_psends s) (g_fatal s) (g_accepted s) (g_done s) v (g_ddone s) (g_trace s) (g_from s) (h_open s) (g_rj s) (h_destroying s) (s_nulls s).
+  mkSt (s_max s) (s_discov s) (s_queue s) (s_pending s) (s_active s) (s_resp s) (s_nframes s) (s_pdisc s) (s_rdisc s) (m_out s) (m_dout s) (m_script s) (m_dscript s) (m_nrun s) (h_next s) (h_ndid s) (h_paused s) (g_parts s) (g_conc s) (g_psends s) (g_fatal s) (g_accepted s) (g_done s) v (g_ddone s) (g_trace s) (g_from s) (h_open s) (g_rj s) (h_destroying s) (s_nulls s) (s_qnulls s).
 Definition set_g_ddone (v : list (N * N)) (s : st) : st :=
-  mkSt (s_max s) (s_discov s) (s_queue s) (s_pending s) (s_active s) (s_resp s) (s_nframes s) (s_pdisc s) (s_rdisc s) (m_out s) (m_dout s) (m_script s) (m_dscript s) (m_nrun s) (h_next s) (h_ndid s) (h_paused s) (g_parts s) (g_conc s) (g_psends s) (g_fatal s) (g_accepted s) (g_done s) (g_runs s) v (g_trace s) (g_from s) (h_open s) (g_rj s) (h_destroying s) (s_nulls s).
+  mkSt (s_max s) (s_discov s) (s_queue s) (s_pending s) (s_active s) (s_resp s) (s_nframes s) (s_pdisc s) (s_rdisc s) (m_out s) (m_dout s) (m_script s) (m_dscript s) (m_nrun s) (h_next s) (h_ndid s) (h_paused s) (g_parts s) (g_conc s) (g_psends s) (g_fatal s) (g_accepted s) (g_done s) (g_runs s) v (g_trace s) (g_from s) (h_open s) (g_rj s) (h_destroying s) (s_nulls s) (s_qnulls s).
 Definition set_g_trace (v : list tev) (s : st) : st :=
-  mkSt (s_max s) (s_discov s) (s_queue s) (s_pending s) (s_active s) (s_resp s) (s_nframes s) (s_pdisc s) (s_rdisc s) (m_out s) (m_dout s) (m_script s) (m_dscript s) (m_nrun s) (h_next s) (h_ndid s) (h_paused s) (g_parts s) (g_conc s) (g_psends s) (g_fatal s) (g_accepted s) (g_done s) (g_runs s) (g_ddone s) v (g_from s) (h_open s) (g_rj s) (h_destroying s) (s_nulls s).
+  mkSt (s_max s) (s_discov s) (s_queue s) (s_pending s) (s_active s) (s_resp s) (s_nframes s) (s_pdisc s) (s_rdisc s) (m_out s) (m_dout s) (m_script s) (m_dscript s) (m_nrun s) (h_next s) (h_ndid s) (h_paused s) (g_parts s) (g_conc s) (g_psends s) (g_fatal s) (g_accepted s) (g_done s) (g_runs s) (g_ddone s) v (g_from s) (h_open s) (g_rj s) (h_destroying s) (s_nulls s) (s_qnulls s).
 Definition set_g_from (v : list N) (s : st) : st :=
-  mkSt (s_max s) (s_discov s) (s_queue s) (s_pending s) (s_active s) (s_resp s) (s_nframes s) (s_pdisc s) (s_rdisc s) (m_out s) (m_dout s) (m_script s) (m_dscript s) (m_nrun s) (h_next s) (h_ndid s) (h_paused s) (g_parts s) (g_conc s) (g_psends s) (g_fatal s) (g_accepted s) (g_done s) (g_runs s) (g_ddone s) (g_trace s) v (h_open s) (g_rj s) (h_destroying s) (s_nulls s).
+  mkSt (s_max s) (s_discov s) (s_queue s) (s_pending s) (s_active s) (s_resp s) (s_nframes s) (s_pdisc s) (s_rdisc s) (m_out s) (m_dout s) (m_script s) (m_dscript s) (m_nrun s) (h_next s) (h_ndid s) (h_paused s) (g_parts s) (g_conc s) (g_psends s) (g_fatal s) (g_accepted s) (g_done s) (g_runs s) (g_ddone s) (g_trace s) v (h_open s) (g_rj s) (h_destroying s) (s_nulls s) (s_qnulls s).
 Definition set_h_open (v : N) (s : st) : st :=
-  mkSt (s_max s) (s_discov s) (s_queue s) (s_pending s) (s_active s) (s_resp s) (s_nframes s) (s_pdisc s) (s_rdisc s) (m_out s) (m_dout s) (m_script s) (m_dscript s) (m_nrun s) (h_next s) (h_ndid s) (h_paused s) (g_parts s) (g_conc s) (g_psends s) (g_fatal s) (g_accepted s) (g_done s) (g_runs s) (g_ddone s) (g_trace s) (g_from s) v (g_rj s) (h_destroying s) (s_nulls s).
+  mkSt (s_max s) (s_discov s) (s_queue s) (s_pending s) (s_active s) (s_resp s) (s_nframes s) (s_pdisc s) (s_rdisc s) (m_out s) (m_dout s) (m_script s) (m_dscript s) (m_nrun s) (h_next s) (h_ndid s) (h_paused s) (g_parts s) (g_conc s) (g_psends s) (g_fatal s) (g_accepted s) (g_done s) (g_runs s) (g_ddone s) (g_trace s) (g_from s) v (g_rj s) (h_destroying s) (s_nulls s) (s_qnulls s).
 Definition set_g_rj (v : N) (s : st) : st :=
-  mkSt (s_max s) (s_discov s) (s_queue s) (s_pending s) (s_active s) (s_resp s) (s_nframes s) (s_pdisc s) (s_rdisc s) (m_out s) (m_dout s) (m_script s) (m_dscript s) (m_nrun s) (h_next s) (h_ndid s) (h_paused s) (g_parts s) (g_conc s) (g_psends s) (g_fatal s) (g_accepted s) (g_done s) (g_runs s) (g_ddone s) (g_trace s) (g_from s) (h_open s) v (h_destroying s) (s_nulls s).
+  mkSt (s_max s) (s_discov s) (s_queue s) (s_pending s) (s_active s) (s_resp s) (s_nframes s) (s_pdisc s) (s_rdisc s) (m_out s) (m_dout s) (m_script s) (m_dscript s) (m_nrun s) (h_next s) (h_ndid s) (h_paused s) (g_parts s) (g_conc s) (g_psends s) (g_fatal s) (g_accepted s) (g_done s) (g_runs s) (g_ddone s) (g_trace s) (g_from s) (h_open s) v (h_destroying s) (s_nulls s) (s_qnulls s).
 Definition set_h_destroying (v : bool) (s : st) : st :=
-  mkSt (s_max s) (s_discov s) (s_queue s) (s_pending s) (s_active s) (s_resp s) (s_nframes s) (s_pdisc s) (s_rdisc s) (m_out s) (m_dout s) (m_script s) (m_dscript s) (m_nrun s) (h_next s) (h_ndid s) (h_paused s) (g_parts s) (g_conc s) (g_psends s) (g_fatal s) (g_accepted s) (g_done s) (g_runs s) (g_ddone s) (g_trace s) (g_from s) (h_open s) (g_rj s) v (s_nulls s).
+  mkSt (s_max s) (s_discov s) (s_queue s) (s_pending s) (s_active s) (s_resp s) (s_nframes s) (s_pdisc s) (s_rdisc s) (m_out s) (m_dout s) (m_script s) (m_dscript s) (m_nrun s) (h_next s) (h_ndid s) (h_paused s) (g_parts s) (g_conc s) (g_psends s) (g_fatal s) (g_accepted s) (g_done s) (g_runs s) (g_ddone s) (g_trace s) (g_from s) (h_open s) (g_rj s) v (s_nulls s) (s_qnulls s).
 Definition set_s_nulls (v : list N) (s : st) : st :=
-  mkSt (s_max s) (s_discov s) (s_queue s) (s_pending s) (s_active s) (s_resp s) (s_nframes s) (s_pdisc s) (s_rdisc s) (m_out s) (m_dout s) (m_script s) (m_dscript s) (m_nrun s) (h_next s) (h_ndid s) (h_paused s) (g_parts s) (g_conc s) (g_psends s) (g_fatal s) (g_accepted s) (g_done s) (g_runs s) (g_ddone s) (g_trace s) (g_from s) (h_open s) (g_rj s) (h_destroying s) v.
+  mkSt (s_max s) (s_discov s) (s_queue s) (s_pending s) (s_active s) (s_resp s) (s_nframes s) (s_pdisc s) (s_rdisc s) (m_out s) (m_dout s) (m_script s) (m_dscript s) (m_nrun s) (h_next s) (h_ndid s) (h_paused s) (g_parts s) (g_conc s) (g_psends s) (g_fatal s) (g_accepted s) (g_done s) (g_runs s) (g_ddone s) (g_trace s) (g_from s) (h_open s) (g_rj s) (h_destroying s) v (s_qnulls s).
+Definition set_s_qnulls (v : list N) (s : st) : st :=
+  mkSt (s_max s) (s_discov s) (s_queue s) (s_pending s) (s_active s) (s_resp s) (s_nframes s) (s_pdisc s) (s_rdisc s) (m_out s) (m_dout s) (m_script s) (m_dscript s) (m_nrun s) (h_next s) (h_ndid s) (h_paused s) (g_parts s) (g_conc s) (g_psends s) (g_fatal s) (g_accepted s) (g_done s) (g_runs s) (g_ddone s) (g_trace s) (g_from s) (h_open s) (g_rj s) (h_destroying s) (s_nulls s) v.
 
 Definition K_ANSWERED : N := 0.
 Definition K_REJECTED : N := 1.
@@ -166,7 +170,7 @@ Definition K_DESTROYED : N := 2.
 Definition is_nil {A} (l : list A) : bool := match l with [] => true | _ => false end.
 
 Definition init (max : N) (discov : bool) (ms : list mitem) (ds : list bool) : st :=
-  mkSt max discov [] false true None 0 [] [] [] [] ms ds 0 0 0 false [] 0 0 false [] [] [] [] [] [] 0 0 false [].
+  mkSt max discov [] false true None 0 [] [] [] [] ms ds 0 0 0 false [] 0 0 false [] [] [] [] [] [] 0 0 false [] [].
 
 (* RDMResponse::CombineResponses *)
 Definition combine (a b : resp) : option resp :=
@@ -242,6 +246,10 @@ Definition take_next (s : st) (ag : list frame) : st * list frame :=
   else if negb (is_nil (s_pdisc s)) then start_disc s ag
   else maybe_send s ag.
 
+(* a completion is visible to the user (trace) unless the request was submitted with a NULL callback *)
+Definition log_comp (c : comp) (s : st) : st :=
+  set_g_trace (if existsb (N.eqb (c_id c)) (s_qnulls s) then g_trace s else g_trace s ++ [TComp c]) s.
+
 (* RunCallback(reply): pops the front request and runs its completion callback *)
 Definition run_callback (rep : reply) (parts : list resp) (froms : list N) (s : st) (ag : list frame)
   : st * list frame :=
@@ -252,7 +260,7 @@ Definition run_callback (rep : reply) (parts : list resp) (froms : list N) (s : 
     let s := set_s_queue rest s in
     let s := set_h_open (h_open s - 1) s in
     let s := set_g_done (g_done s ++ [c]) s in
-    let s := set_g_trace (g_trace s ++ [TComp c]) s in
+    let s := log_comp c s in
     (s, map FOp cb ++ ag)
   end.
 
@@ -323,19 +331,21 @@ Definition do_op (o : op) (s : st) (ag : list frame) : st * list frame :=
   match o with
   | Pause => (set_h_paused true (set_s_active false s), ag)
   | Resume => take_next (set_s_active true (set_h_paused false s)) ag   (* fix 01 *)
-  | Submit cb =>
+  | Submit null cb0 =>
+    let cb := if null then [] else cb0 in
     let id := h_next s in
     (* harness bookkeeping: it expects a rejection iff its own count of accepted, uncompleted
        requests has reached the limit; g_rj counts the disagreements *)
     let expect := s_max s <=? h_open s in
     let full := s_max s <=? len (s_queue s) in
     let s := set_h_next (id + 1) s in
+    let s := set_s_qnulls (if null then s_qnulls s ++ [id] else s_qnulls s) s in
     let s := set_h_open (if expect then h_open s else h_open s + 1) s in
     let s := set_g_rj (if Bool.eqb expect full then g_rj s else g_rj s + 1) s in
     if full then
       let c := mkComp id K_REJECTED (mkReply RDM_FAILED_TO_SEND None 0) [] [] in
       let s := set_g_done (g_done s ++ [c]) s in
-      let s := set_g_trace (g_trace s ++ [TComp c]) s in
+      let s := log_comp c s in
       (s, map FOp cb ++ ag)
     else
       let s := set_s_queue (s_queue s ++ [(id, cb)]) s in
@@ -374,7 +384,7 @@ Definition destroy_next (s : st) (ag : list frame) : st * list frame :=
     let s := set_s_queue rest s in
     let s := set_h_open (h_open s - 1) s in
     let s := set_g_done (g_done s ++ [c]) s in
-    let s := set_g_trace (g_trace s ++ [TComp c]) s in
+    let s := log_comp c s in
     (s, map FOp cb ++ FDestroy :: ag)
   end.
 
@@ -404,7 +414,7 @@ Fixpoint run (fuel : nat) (s : st) (ag : list frame) : option st :=
 (* ---- termination measure ---- *)
 Fixpoint wop (o : op) : nat :=
   match o with
-  | Submit cb => 3 + (fix wl (l : list op) := match l with [] => 0 | x :: r => wop x + wl r end) cb
+  | Submit _ cb => 3 + (fix wl (l : list op) := match l with [] => 0 | x :: r => wop x + wl r end) cb
   | Disc _ _ cb => 3 + (fix wl (l : list op) := match l with [] => 0 | x :: r => wop x + wl r end) cb
   | Pause => 1
   | Resume => 1
